@@ -681,6 +681,7 @@ func (x *c12) r3() {
 		return nil, nil
 	}
 	retVar := func() types.Object { return x.entryErr }
+	vouched := map[*ast.ReturnStmt]bool{} // returns inside a clause, judged with the clause
 	for _, k := range sortedKeys(ret) {
 		t := ret[k]
 		o := r.Ob(R, key+"#"+k, x.entrySw.Pos())
@@ -720,8 +721,16 @@ func (x *c12) r3() {
 				car := x.carrier(it)
 				inner := c11ObjOf(x.info, as.Lhs[0])
 				for _, s := range is.Body.List {
+					// err = outErr.err (returned later)   or   return outErr.err
+					var delivered ast.Expr
 					if as2, ok := s.(*ast.AssignStmt); ok && len(as2.Lhs) == 1 && len(as2.Rhs) == 1 && c11ObjOf(x.info, as2.Lhs[0]) == retVar() {
-						if se2, ok := ast.Unparen(as2.Rhs[0]).(*ast.SelectorExpr); ok && c11ObjOf(x.info, se2.X) == inner && car != nil && c11FieldOf(x.info, se2) == car {
+						delivered = as2.Rhs[0]
+					} else if rs, ok := s.(*ast.ReturnStmt); ok && len(rs.Results) == 1 {
+						delivered = rs.Results[0]
+						vouched[rs] = true
+					}
+					if delivered != nil {
+						if se2, ok := ast.Unparen(delivered).(*ast.SelectorExpr); ok && c11ObjOf(x.info, se2.X) == inner && car != nil && c11FieldOf(x.info, se2) == car {
 							o.OK("clause `case %s`: a message of type %s is replaced by its field %s (the writer's error); other panics are returned as they are", exprStr(te), typeStr(x.info.TypeOf(te2)), car.Name())
 							done = true
 						}
@@ -750,6 +759,15 @@ func (x *c12) r3() {
 							} else {
 								verdict = "!returns field " + exprStr(st.Rhs[0]) + " instead of " + car.Name()
 							}
+						}
+					}
+				case *ast.ReturnStmt:
+					if len(st.Results) == 1 {
+						vouched[st] = true
+						if se, ok := ast.Unparen(st.Results[0]).(*ast.SelectorExpr); ok && c11ObjOf(x.info, se.X) == bound && c11FieldOf(x.info, se) == car {
+							verdict = "returns " + exprStr(st.Results[0])
+						} else {
+							verdict = "!returns " + exprStr(st.Results[0]) + " instead of the field " + car.Name()
 						}
 					}
 				case *ast.ExprStmt:
@@ -782,6 +800,9 @@ func (x *c12) r3() {
 	} else {
 		c11Walk(c, sb, 0, nil, func(b *cfg.Block, i int, n ast.Node) bool {
 			if rs, ok := n.(*ast.ReturnStmt); ok {
+				if vouched[rs] {
+					return true
+				}
 				if len(rs.Results) != 1 || c11ObjOf(x.info, rs.Results[0]) != x.entryErr {
 					bad = "the return at " + r.P.Pos(rs.Pos()) + " does not return " + x.entryErr.Name()
 				}
@@ -811,75 +832,107 @@ func (x *c12) r3() {
 			if as, ok := r.P.Parents(g.File)[runs[0]].(*ast.AssignStmt); ok && len(as.Lhs) == 1 {
 				errObj = c11ObjOf(rinfo, as.Lhs[0])
 			}
-			wrapped := false
-			directReturn := map[*ast.ReturnStmt]bool{}
-			ast.Inspect(g.Decl.Body, func(nd ast.Node) bool {
-				is, ok := nd.(*ast.IfStmt)
-				if !ok {
-					return true
-				}
-				as, ok := is.Init.(*ast.AssignStmt)
-				if !ok || len(as.Rhs) != 1 || len(as.Lhs) != 2 {
-					return true
-				}
-				ta, ok := ast.Unparen(as.Rhs[0]).(*ast.TypeAssertExpr)
-				if !ok || ta.Type == nil || c11ObjOf(rinfo, ta.X) != errObj || c11NamedOf(rinfo.TypeOf(ta.Type)) != x.panicT {
-					return true
-				}
-				if c11ObjOf(rinfo, is.Cond) != c11ObjOf(rinfo, as.Lhs[1]) {
-					return true
-				}
-				inner := c11ObjOf(rinfo, as.Lhs[0])
-				for _, s := range is.Body.List {
-					// err = &PanicError{p}   or   return &PanicError{p}
-					var wrapExpr ast.Expr
-					if as2, ok := s.(*ast.AssignStmt); ok && len(as2.Lhs) == 1 && len(as2.Rhs) == 1 && c11ObjOf(rinfo, as2.Lhs[0]) == errObj {
-						wrapExpr = as2.Rhs[0]
-					} else if rs, ok := s.(*ast.ReturnStmt); ok && len(rs.Results) == 1 {
-						wrapExpr = rs.Results[0]
-						directReturn[rs] = true
-					}
-					if wrapExpr == nil {
-						continue
-					}
-					if u, ok := ast.Unparen(wrapExpr).(*ast.UnaryExpr); ok && u.Op == token.AND {
-						if cl, ok := u.X.(*ast.CompositeLit); ok && len(cl.Elts) == 1 {
-							v := cl.Elts[0]
-							if kv, ok := v.(*ast.KeyValueExpr); ok {
-								v = kv.Value
-							}
-							wn := c11NamedOf(rinfo.TypeOf(cl))
-							if c11ObjOf(rinfo, v) == inner && wn != nil && wn.Obj().Pkg() == root.Types {
-								wrapped = true
-							}
-						}
-					}
-				}
-				return true
-			})
-			// and err is what is returned
-			retOK := true
-			gc := r.P.CFGOf(g)
-			if rb, ri := gc.Locate(runs[0]); rb != nil {
-				c11Walk(gc, rb, ri+1, nil, func(b *cfg.Block, i int, n ast.Node) bool {
-					rs, ok := n.(*ast.ReturnStmt)
+			// checkWrap reads one function: is the error held by errObj, when it asserts to the runtime panic
+			// type, replaced by the public wrapper, and is that what every return reached after `from` returns?
+			// A return of `h(err)`, h a function of the package, delegates the question to h.
+			var checkWrap func(fi *FuncInfo, errObj types.Object, from ast.Node, depth int) (bool, bool)
+			checkWrap = func(fi *FuncInfo, errObj types.Object, from ast.Node, depth int) (wrapped, retOK bool) {
+				directReturn := map[*ast.ReturnStmt]bool{}
+				ast.Inspect(fi.Decl.Body, func(nd ast.Node) bool {
+					is, ok := nd.(*ast.IfStmt)
 					if !ok {
-						return false
+						return true
 					}
-					if len(rs.Results) == 1 {
-						if tv, ok := rinfo.Types[rs.Results[0]]; ok && tv.IsNil() {
-							return true
+					as, ok := is.Init.(*ast.AssignStmt)
+					if !ok || len(as.Rhs) != 1 || len(as.Lhs) != 2 {
+						return true
+					}
+					ta, ok := ast.Unparen(as.Rhs[0]).(*ast.TypeAssertExpr)
+					if !ok || ta.Type == nil || c11ObjOf(rinfo, ta.X) != errObj || c11NamedOf(rinfo.TypeOf(ta.Type)) != x.panicT {
+						return true
+					}
+					if c11ObjOf(rinfo, is.Cond) != c11ObjOf(rinfo, as.Lhs[1]) {
+						return true
+					}
+					inner := c11ObjOf(rinfo, as.Lhs[0])
+					for _, s := range is.Body.List {
+						// err = &PanicError{p}   or   return &PanicError{p}
+						var wrapExpr ast.Expr
+						if as2, ok := s.(*ast.AssignStmt); ok && len(as2.Lhs) == 1 && len(as2.Rhs) == 1 && c11ObjOf(rinfo, as2.Lhs[0]) == errObj {
+							wrapExpr = as2.Rhs[0]
+						} else if rs, ok := s.(*ast.ReturnStmt); ok && len(rs.Results) == 1 {
+							wrapExpr = rs.Results[0]
+							directReturn[rs] = true
 						}
-						if directReturn[rs] {
-							return true // the wrap itself is returned
+						if wrapExpr == nil {
+							continue
 						}
-						if c11ObjOf(rinfo, rs.Results[0]) != errObj {
-							retOK = false
+						if u, ok := ast.Unparen(wrapExpr).(*ast.UnaryExpr); ok && u.Op == token.AND {
+							if cl, ok := u.X.(*ast.CompositeLit); ok && len(cl.Elts) == 1 {
+								v := cl.Elts[0]
+								if kv, ok := v.(*ast.KeyValueExpr); ok {
+									v = kv.Value
+								}
+								wn := c11NamedOf(rinfo.TypeOf(cl))
+								if c11ObjOf(rinfo, v) == inner && wn != nil && wn.Obj().Pkg() == root.Types {
+									wrapped = true
+								}
+							}
 						}
 					}
 					return true
-				}, nil)
+				})
+				// and err is what is returned
+				retOK = true
+				delegated, plain := 0, 0
+				gc := r.P.CFGOf(fi)
+				rb, ri := gc.G.Blocks[0], -1
+				if from != nil {
+					rb, ri = gc.Locate(from)
+				}
+				if rb != nil {
+					c11Walk(gc, rb, ri+1, nil, func(b *cfg.Block, i int, n ast.Node) bool {
+						rs, ok := n.(*ast.ReturnStmt)
+						if !ok {
+							return false
+						}
+						if len(rs.Results) == 1 {
+							if tv, ok := rinfo.Types[rs.Results[0]]; ok && tv.IsNil() {
+								return true
+							}
+							if directReturn[rs] {
+								return true // the wrap itself is returned
+							}
+							if hc, ok := ast.Unparen(rs.Results[0]).(*ast.CallExpr); ok && depth < 2 && len(hc.Args) == 1 && c11ObjOf(rinfo, hc.Args[0]) == errObj {
+								if hf := callee(rinfo, hc); hf != nil {
+									for _, h := range r.P.Funcs("") {
+										if h.Obj == hf && !r.P.isTestFile(h.File) && h.Decl.Type.Params.NumFields() == 1 && len(h.Decl.Type.Params.List[0].Names) == 1 {
+											hw, hr := checkWrap(h, rinfo.Defs[h.Decl.Type.Params.List[0].Names[0]], nil, depth+1)
+											if hw && hr {
+												delegated++
+											} else {
+												retOK = false
+											}
+											return true
+										}
+									}
+								}
+							}
+							if c11ObjOf(rinfo, rs.Results[0]) != errObj {
+								retOK = false
+							} else {
+								plain++
+							}
+						}
+						return true
+					}, nil)
+				}
+				if !wrapped && delegated > 0 && plain == 0 {
+					wrapped = true // every non-nil return goes through a helper that wraps
+				}
+				return wrapped, retOK
 			}
+			wrapped, retOK := checkWrap(g, errObj, runs[0], 0)
 			switch {
 			case !wrapped:
 				o.Bad("%s does not wrap a *runtime.PanicError result into the public *PanicError: the caller would receive the internal type", g.Name())
